@@ -202,3 +202,49 @@ fn bu_schedule_error_reported_when_task_already_scheduled() {
   });
   ::std::mem::forget(pie);
 }
+
+/// Two consecutive require-now removals (sources solver-chosen) from a fully scheduled chain 0 -> 1 -> 2 -> 3, then draining:
+/// the answer of the second must not depend on the reachability queries made for the first.
+//@h props=C04 tier=quick unwind=14 stubs=sort,boxslice timeout=1500 fieldsens=1024
+fn bu_queue_two_require_now_then_pop_chain() {
+  let mut store = Store::default();
+  let n = build(&mut store, 0);
+  let cl = closure(shape(0));
+  split(NT as u8, |s1| { split(NT as u8, |s2| {
+    let mut q: Queue = Queue::new();
+    let mut queued = [true; NT];
+    let mut i = 0; while i < NT { q.add(n[i]); i += 1; }
+    let mut round = 0;
+    while round < 2 {
+      let s = if round == 0 { s1 as usize } else { s2 as usize };
+      let got = q.pop_least_task_with_dependency_from(&n[s], &store);
+      let mut any = false; let mut j = 0;
+      while j < NT { if queued[j] && (j == s || cl[s][j]) { any = true; } j += 1; }
+      assert!(got.is_some() == any, "C04 a scheduled task that the required task depends on (or the task itself) is found iff there is one");
+      if let Some(g) = got {
+        let gi = idx(&n, &g);
+        assert!(gi < NT && queued[gi] && (gi == s || cl[s][gi]), "C04 the task handed out is scheduled and is (a dependency of) the required task");
+        let mut j = 0;
+        while j < NT { if queued[j] && j != gi { assert!(!cl[gi][j], "C04 never a task before a scheduled task it depends on (require-now)"); } j += 1; }
+        queued[gi] = false;
+      }
+      round += 1;
+    }
+    let mut k = 0;
+    while k < NT + 1 {
+      match q.pop(&store) {
+        None => break,
+        Some(g) => {
+          let gi = idx(&n, &g);
+          assert!(gi < NT && queued[gi], "C04 a task is handed out at most once, and only if scheduled");
+          let mut j = 0;
+          while j < NT { if queued[j] && j != gi { assert!(!cl[gi][j], "C04 a scheduled task is never executed before a scheduled task it depends on"); } j += 1; }
+          queued[gi] = false;
+        }
+      }
+      k += 1;
+    }
+    let mut j = 0; while j < NT { assert!(!queued[j], "C04 every scheduled task is handed out"); j += 1; }
+  }); });
+  ::std::mem::forget(store);
+}
